@@ -2466,7 +2466,7 @@ def _run_hard_wrap(ctx, make_exe, piece_lens, frag_between, max_width):
     return f, exe, m, ref, pieces, allchars, outs
 
 
-def _hard_wrap_posts(ctx, f, exe, m, ref, pieces, allchars, outs, label):
+def _hard_wrap_posts(ctx, f, exe, m, ref, pieces, allchars, outs, label, want_seq=None):
     import wrapmodel
     n_ok = 0
     for (s2, ret) in outs:
@@ -2485,16 +2485,25 @@ def _hard_wrap_posts(ctx, f, exe, m, ref, pieces, allchars, outs, label):
         post(exe, s2, z3.Not(p["word_nonempty"]), f.name, label + ": the word buffer is empty afterwards")
         # every character of the word is emitted exactly once, in order
         got = []
+        seq = []      # characters and fragment markers in emission order
         for cl in s2.calls:
-            if re.search(r"TaggedLine::<\w+>::push$", cl[0]) and cl[2] == f.name:
+            if re.search(r"TaggedLine::<.*>::push$", cl[0]) and cl[2] == f.name:
                 el = cl[1][1]
                 if isinstance(el, VAgg) and el.variant == "Str":
                     sv = el.fields[0].fields[el.fields[0].names.index("s")] if el.fields[0].names else el.fields[0].fields[0]
                     if not isinstance(sv, VStr):
                         raise Inconclusive("pushed string not recovered")
                     got += sv.chars
+                    seq += [("c", c_) for c_ in sv.chars]
+                elif isinstance(el, VAgg) and el.variant == "FragmentStart":
+                    seq.append(("frag", getattr(el.fields[0], "name", "?")))
         same = len(got) == len(allchars) and all(z3.eq(a, b) for a, b in zip(got, allchars))
         post(exe, s2, z3.BoolVal(bool(same)), f.name, label + ": every character of the word is emitted exactly once, in order (got %d of %d)" % (len(got), len(allchars)))
+        if want_seq is not None:
+            okf = len(seq) == len(want_seq) and all((a[0] == b[0]) and (z3.eq(a[1], b[1]) if a[0] == "c" else a[1] == b[1]) for a, b in zip(seq, want_seq))
+            post(exe, s2, z3.BoolVal(bool(okf)), f.name,
+                 label + ": fragment markers inside the word are emitted at their place (%d of %d markers)" % (
+                     len([x for x in seq if x[0] == "frag"]), len([x for x in want_seq if x[0] == "frag"])))
     if n_ok == 0:
         raise Inconclusive("no successful path")
 
@@ -2504,7 +2513,12 @@ def spec_wrap_hard_wrap(ctx, make_exe):
     for (lens, frag) in (([2], False), ([2, 2], False), ([1, 2], True)):
         f, exe, m, ref, pieces, allchars, outs = _run_hard_wrap(ctx, make_exe, lens, frag, 1 << 20)
         total += len(outs)
-        _hard_wrap_posts(ctx, f, exe, m, ref, pieces, allchars, outs, "hard wrap %s" % (lens,))
+        want_seq = []
+        for pi_, cs_ in enumerate(pieces):
+            if pi_ > 0 and frag:
+                want_seq.append(("frag", "frag"))
+            want_seq += [("c", c_) for c_ in cs_]
+        _hard_wrap_posts(ctx, f, exe, m, ref, pieces, allchars, outs, "hard wrap %s%s" % (lens, " with markers" if frag else ""), want_seq)
     return {"function": f.name, "paths": total}
 
 
@@ -2536,29 +2550,20 @@ def spec_wrap_hard_wrap_deep(ctx, make_exe):
     for (lens, frag) in (([3], False), ([3, 2], False), ([2, 1, 2], True)):
         f, exe, m, ref, pieces, allchars, outs = _run_hard_wrap(ctx, make_exe, lens, frag, 1 << 20)
         total += len(outs)
-        _hard_wrap_posts(ctx, f, exe, m, ref, pieces, allchars, outs, "hard wrap %s" % (lens,))
+        want_seq = []
+        for pi_, cs_ in enumerate(pieces):
+            if pi_ > 0 and frag:
+                want_seq.append(("frag", "frag"))
+            want_seq += [("c", c_) for c_ in cs_]
+        _hard_wrap_posts(ctx, f, exe, m, ref, pieces, allchars, outs, "hard wrap %s%s" % (lens, " with markers" if frag else ""), want_seq)
     return {"function": f.name, "paths": total}
 
 
 def replay_hard_wrap(fd, vals, info):
     g = lambda k: int(vals.get("s." + k, 0))
-    v = [le_bytes(g("width"), 8), le_bytes(g("line_len"), 8), [1 if vals.get("s.allow_overflow") else 0]]
-    pcs = []
-    pi = 0
-    while ("p%dc0" % pi) in vals:
-        cs = []
-        k = 0
-        while ("p%dc%d" % (pi, k)) in vals:
-            cs.append(int(vals["p%dc%d" % (pi, k)]))
-            k += 1
-        pcs.append(cs)
-        pi += 1
-    v.append([len(pcs)])
-    for cs in pcs:
-        v.append([len(cs)])
-        for c in cs:
-            v.append(le_bytes(c, 4))
-    return {"harness": "m_hard_wrap", "values": v}
+    return {"harness": "m_hard_wrap", "values": [le_bytes(g("width"), 8), le_bytes(g("line_len"), 8), [1 if vals.get("s.allow_overflow") else 0],
+                                                  [1 if "with markers" in fd.msg else 0]] + _replay_pieces(vals)}
+
 
 # ----------------------------------------------------------------------------
 # SPEC: the footnote list is hard-wrapped to the width (SubRenderer::fmt_links)
@@ -3472,6 +3477,125 @@ def spec_ol_marker_columns(ctx, make_exe):
                 post(exe, s2, later.fields[0].e == pw.e, post_cl.name, "per item: later lines are indented by the marker column's width")
     return {"functions": [est.name, ren.name, post_cl.name], "paths": total}
 
+# ----------------------------------------------------------------------------
+# SPEC: column spans are bounded where they enter, so the column counting cannot overflow
+# ----------------------------------------------------------------------------
+
+COLSPAN_CAP = 1 << 31   # any cap up to this keeps a row of < 2^32 cells below 2^63 columns (HTML's own limit is 1000)
+
+
+def spec_colspan_bounded(ctx, make_exe):
+    ctx.enums.setdefault("NodeData", ["Document", "Doctype", "Text", "Comment", "Element", "ProcessingInstruction"])
+    import summaries
+    orig = summaries.summarize
+    td = the(ctx.find(r"^td_to_render_tree$"), "td_to_render_tree")
+    per_cell = the(ctx.find(r"^tbody_to_render_tree::\{closure#0\}::\{closure#1\}::\{closure#0\}$"), "tbody: per-cell closure")
+    fold = the(ctx.find(r"^tbody_to_render_tree::\{closure#0\}::\{closure#1\}::\{closure#1\}$"), "tbody: fold closure")
+    total = 0
+    # 1. the span stored for a cell is what the attribute says, capped
+    for n_attrs in (0, 1, 2):
+        exe = make_exe(loop_bound=8)
+        st = State()
+        kinds = [exe.fresh("bool", "attr%d.is_colspan" % k) for k in range(n_attrs)]
+        parsed = [exe.fresh("usize", "attr%d.value" % k) for k in range(n_attrs)]
+        parses = [exe.fresh("bool", "attr%d.parses" % k) for k in range(n_attrs)]
+        if n_attrs == 2:
+            st.pc.append(z3.Not(z3.And(kinds[0].e, kinds[1].e)))     # attribute names are distinct
+        attrs = VVec([VAgg("Attribute", None, [VAgg("QualName", None, [VOpaque("Option<Prefix>", "pfx"), VOpaque("Namespace", "ns"), VOpaque("Atom", "attrname%d" % k)]),
+                                                VOpaque("Tendril", "attrvalue%d" % k)]) for k in range(n_attrs)])
+        node = VAgg("Node", None, [VOpaque("Cell", "parent"), VOpaque("RefCell", "children"),
+                                   VAgg("NodeData::Element", "Element", [VOpaque("QualName", "elname"), VOpaque("RefCell<Vec<Attribute>>", "attrcell"),
+                                                                         VOpaque("RefCell", "tc"), VOpaque("bool", "mx")])])
+        inp = _agg(ctx, "RenderInput", handle=VOpaque("Rc<Node>", "handle"))
+        captured = []
+
+        def nm(exe_, st_, v):
+            while isinstance(v, VRef):
+                v = exe_.deref(st_, v)
+            return getattr(v, "name", None) or ""
+
+        def summ(exe_, st_, f_, bb_, callee, args, dest_ty):
+            c = callee.strip()
+            if re.search(r"^<Rc<Node> as Deref>::deref$", c):
+                return [(st_, VRef("val", node))]
+            if re.search(r"^RefCell::<Vec<Attribute>>::borrow$", c):
+                return [(st_, VRef("val", attrs))]
+            if re.search(r"^<Ref<'_, Vec<Attribute>> as Deref>::deref$", c):
+                return [(st_, args[0])]
+            if re.search(r"Atom<LocalNameStaticSet> as PartialEq<&str>>::eq$", c):
+                m_ = re.match(r"attrname(\d+)$", nm(exe_, st_, args[0]))
+                if m_ and '"colspan"' in nm(exe_, st_, args[1]):
+                    return [(st_, kinds[int(m_.group(1))])]
+                return None
+            if re.search(r"^<Tendril<UTF8> as Deref>::deref$", c):
+                return [(st_, VRef("val", VOpaque("str", "value:" + nm(exe_, st_, args[0]))))]
+            if re.search(r"core::str::<impl str>::parse::<usize>$", c):
+                k = int(nm(exe_, st_, args[0])[-1])
+                ok = st_.clone()
+                ok.pc.append(parses[k].e)
+                bad = st_.clone()
+                bad.pc.append(z3.Not(parses[k].e))
+                return [(ok, VAgg("Result::Ok", "Ok", [parsed[k]])), (bad, VAgg("Result::Err", "Err", [VOpaque("ParseIntError", "e")]))]
+            if re.search(r"Result::<usize, ParseIntError>::unwrap_or$", c):
+                v = args[0]
+                return [(st_, v.fields[0] if isinstance(v, VAgg) and v.variant == "Ok" else args[1])]
+            if re.search(r"^pending::<", c):
+                captured.append((st_.clone(), args[1]))
+                return [(st_, VOpaque("TreeMapResult", "pending"))]
+            return orig(exe_, st_, f_, bb_, callee, args, dest_ty)
+        summaries.summarize = summ
+        try:
+            outs = exe.run(td.name, {1: inp, 2: VOpaque("ComputedStyle", "computed"), 3: VOpaque("&mut T", "err_out")}, st)
+        finally:
+            summaries.summarize = orig
+        total += len(outs)
+        if not captured:
+            raise Inconclusive("td_to_render_tree: the cell closure was not built")
+        for (s2, clos) in captured:
+            span = None
+            if isinstance(clos, VAgg):
+                if clos.names and "colspan" in clos.names:
+                    span = clos.fields[clos.names.index("colspan")]
+                else:
+                    ints = [x for x in clos.fields if isinstance(x, VInt)]
+                    span = ints[0] if len(ints) == 1 else None
+            if not isinstance(span, VInt):
+                raise Inconclusive("td_to_render_tree: captured colspan not recovered")
+            post(exe, s2, z3.ULE(span.e, u64(COLSPAN_CAP)), td.name, "a cell's column span is bounded (at most 2^31) whatever the attribute says, so that counting columns cannot overflow")
+            # and it is the attribute's value (or 1) when that is within the cap
+            want = u64(1)
+            for k in range(n_attrs):
+                val = z3.If(parses[k].e, parsed[k].e, u64(1))
+                want = z3.If(kinds[k].e, val, want)
+            post(exe, s2, z3.Implies(z3.ULE(want, u64(1000)), span.e == want), td.name,
+                 "a cell's column span is its colspan attribute (1 if absent or unparsable) for every value HTML allows (up to 1000)")
+    # 2. counting the columns of a row cannot overflow for bounded spans
+    exe = make_exe(loop_bound=4)
+    st = State()
+    span = exe.fresh("usize", "cell.colspan")
+    st.pc.append(z3.ULE(span.e, u64(COLSPAN_CAP)))
+    cell = _agg(ctx, "RenderTableCell", colspan=span)
+    outs = exe.run(per_cell.name, {1: VRef("val", VAgg("closure", None, [])), 2: VRef("val", cell)}, st)
+    total += len(outs)
+    for (s2, ret) in outs:
+        if not (isinstance(ret, VAgg) and len(ret.fields) == 2 and isinstance(ret.fields[1], VInt)):
+            raise Inconclusive("per-cell closure: result not recovered")
+        post(exe, s2, z3.And(z3.UGE(ret.fields[1].e, u64(1)), z3.ULE(ret.fields[1].e, u64(COLSPAN_CAP))), per_cell.name, "a cell counts for at least one and at most its span of columns")
+    exe = make_exe(loop_bound=4)
+    st = State()
+    acc = exe.fresh("usize", "acc.columns")
+    one = exe.fresh("usize", "cell.columns")
+    st.pc += [z3.ULE(acc.e, u64(COLSPAN_CAP << 32)), z3.ULE(one.e, u64(COLSPAN_CAP))]      # fewer than 2^32 cells in a row
+    a = VAgg("tuple", None, [exe.fresh("bool", "acc.zero"), acc])
+    b = VAgg("tuple", None, [exe.fresh("bool", "cell.zero"), one])
+    outs = exe.run(fold.name, {1: VRef("val", VAgg("closure", None, [])), 2: a, 3: b}, st)
+    total += len(outs)
+    for (s2, ret) in outs:
+        if not (isinstance(ret, VAgg) and len(ret.fields) == 2 and isinstance(ret.fields[1], VInt)):
+            raise Inconclusive("fold closure: result not recovered")
+        post(exe, s2, ret.fields[1].e == acc.e + one.e, fold.name, "the column count of a row is the sum over its cells")
+    return {"functions": [td.name, per_cell.name, fold.name], "paths": total}
+
 
 ALL = [
     Spec("table_col_width", ["C06", "C02", "C01"], spec_table_col_width,
@@ -3610,7 +3734,7 @@ ALL = [
          assumptions=["TaggedLine::{insert_front,push,new} and the string conversions are observed, not executed (t4_* decide insert_front on the real code)",
                       "the pairing of lines with prefixes (zip) is std"],
          replay=lambda fd, vals, info: {"harness": "m_prefix_blank_lines", "values": [[0]]}),
-    Spec("wrap_hard_wrap", ["C02", "C04", "C03", "C01"], spec_wrap_hard_wrap,
+    Spec("wrap_hard_wrap", ["C02", "C04", "C03", "C01", "C14"], spec_wrap_hard_wrap,
          functions=["WrappedBlock::flush_word_hard_wrap", "WrappedBlock::force_flush_line"],
          bounds="word of 1-2 pieces of 1-2 characters from {a, e-acute, a wide CJK character, a combining mark}, optional fragment marker between; any block width <= 2^20, any line position",
          assumptions=["TaggedLine contracts of section 9.1; strings are sequences of symbolic characters; slicing forks over character boundaries"],
@@ -3631,7 +3755,7 @@ ALL = [
          bounds="2-3 columns of 0-3 lines each (text lines and border lines), widths 1..2^20",
          assumptions=["TaggedLine / BorderHoriz operations are contracts (decided on the real code by the t3_* and t4_* Kani harnesses)"],
          replay=lambda fd, vals, info: {"harness": "m_columns", "values": [[0]]}),
-    Spec("wrap_hard_wrap_deep", ["C02", "C04", "C03", "C01"], spec_wrap_hard_wrap_deep, tier="thorough",
+    Spec("wrap_hard_wrap_deep", ["C02", "C04", "C03", "C01", "C14"], spec_wrap_hard_wrap_deep, tier="thorough",
          functions=["WrappedBlock::flush_word_hard_wrap", "WrappedBlock::force_flush_line"],
          bounds="word of 1-3 pieces of 1-3 characters (5 characters in all) from {a, e-acute, a wide CJK character, a combining mark}, optional fragment markers; any block width <= 2^20, any line position",
          assumptions=["as wrap_hard_wrap"], replay=replay_hard_wrap),
@@ -3653,6 +3777,12 @@ ALL = [
          assumptions=["strings are (display width, byte length) pairs; format! is not modelled (its result is an arbitrary string)",
                       "every item's marker is at most as wide as the marker column (r4_ol_prefix_is_max decides that for decimal markers)"],
          replay=lambda fd, vals, info: {"harness": "m_ol_prefix_width", "values": [[2]]}),
+    Spec("colspan_bounded", ["C01", "C06"], spec_colspan_bounded,
+         functions=["td_to_render_tree", "tbody_to_render_tree (per-cell and fold closures of the column count)"],
+         bounds="0-2 attributes, any parsed value; fold step from any partial count of a row with fewer than 2^32 cells",
+         assumptions=["str::parse::<usize> returns any value or an error; DOM accessors follow their contracts",
+                      "the column arithmetic of RenderTable::new downstream is outside this spec"],
+         replay=lambda fd, vals, info: {"harness": "m_colspan_huge", "values": [[0]]}),
     Spec("link_footnotes", ["C08"], spec_link_footnotes,
          functions=["TextRenderer::start_link", "TextRenderer::end_link"],
          bounds="0-2 links already recorded; footnote flag symbolic",
